@@ -20,6 +20,7 @@ from sa.cfg import CFG
 from sa.model import AnalysisError, Function, Repo, calls_in, const_str, dotted, norm, own_nodes, parent
 from sa.paths import Provenance
 from sa.match import match
+from sa.match import Locals as _L10
 from sa.report import Report
 from sa.resolve import CallGraph
 
@@ -323,7 +324,10 @@ def run(repo: Repo, rep: Report, tier: str) -> None:
                 and isinstance(x.value, ast.Call) and dotted(x.value.func) == "self._show_diffs"}
     for r in raises:
         gs = [cfg.nodes[d] for d in dom[r.id] if cfg.nodes[d].kind == "test"]
-        for t in gs:
+        for t0 in gs:
+            class _T:  # the test with single-definition locals expanded (`found = a or b; if found:`)
+                ast = _L10(gen.node).inline(t0.ast, stop=tuple(assigned))
+            t = _T
             names = {x.id for x in ast.walk(t.ast) if isinstance(x, ast.Name)}
             if not (names & assigned):
                 continue
